@@ -57,6 +57,44 @@ def instances(P, relfiles):
     return out
 
 
+def _cut_for(flag):
+    def cut(B, si):
+        # the edge on which the flag is known to be set: `!F` false / `F` true (a condition on F alone)
+        if B.cond is None or len(B.succs) != 2:
+            return False
+        c = B.cond.strip_casts()
+        neg = False
+        while c is not None and c.k == "UnaryOperator" and c.op == "!":
+            neg = not neg
+            c = c.c[0].strip_casts()
+        if c is not None and _global_ref(c, {flag}):
+            return (si == 0) != neg
+        return False
+    return cut
+
+
+def _unprotected(P, rf, f, init, flag, is_target, depth):
+    """A witness (function, block path) that reaches a target of f without the tables being built, or None.
+    A static helper that reads the tables unguarded is fine when every call of it happens after the build."""
+    path = find_path_avoiding(f.cfg, lambda e: e.k == "CallExpr" and e.callee == init, is_target, _cut_for(flag))
+    if path is None:
+        return None
+    if not f.static or depth <= 0:
+        return (f, path)
+    fns = P.funcs_in(rf)
+    sites = [(g, c) for g in fns if g.cfg is not None for c in g.calls() if c.callee == f.name]
+    refs = sum(1 for g in fns for x in g.body.walk() if x.k == "DeclRefExpr" and x.name == f.name and x.get("dk") not in ("local", "param"))
+    if not sites or refs > len(sites):
+        return (f, path)            # never called here, or its address escapes: judged on its own
+    for g, c in sites:
+        if g.name == init:
+            continue
+        w = _unprotected(P, rf, g, init, flag, lambda e, c=c: e is c or (e.k == "CallExpr" and e.i == c.i), depth - 1)
+        if w is not None:
+            return w
+    return None
+
+
 def check(ctx, relfiles, rule="R22.lazy-init", key_prefix="lazy-init"):
     P = ctx.P
     n = 0
@@ -73,29 +111,14 @@ def check(ctx, relfiles, rule="R22.lazy-init", key_prefix="lazy-init"):
 
             def is_read(e):
                 return any(x.i in rids for x in e.walk()) if e.k != "DeclRefExpr" else e.i in rids
-
-            def is_init(e):
-                return e.k == "CallExpr" and e.callee == init
-
-            def cut(B, si):
-                # the edge on which the flag is known to be set: `!F` false / `F` true (a condition on F alone)
-                if B.cond is None or len(B.succs) != 2:
-                    return False
-                c = B.cond.strip_casts()
-                neg = False
-                while c is not None and c.k == "UnaryOperator" and c.op == "!":
-                    neg = not neg
-                    c = c.c[0].strip_casts()
-                if c is not None and _global_ref(c, {flag}):
-                    return (si == 0) != neg
-                return False
-            path = find_path_avoiding(f.cfg, is_init, is_read, cut)
+            w = _unprotected(P, rf, f, init, flag, is_read, 2)
             key = "%s|%s:%s|%s" % (key_prefix, rf, f.name, "+".join(sorted(tables)))
-            what = ("every read of %s in %s is preceded on every path by %s() or by a test that found %s set"
-                    % ("/".join(sorted(tables)), f.name, init, flag))
-            if path is None:
+            what = ("every read of %s in %s is preceded on every path by %s() or by a test that found %s set%s"
+                    % ("/".join(sorted(tables)), f.name, init, flag, " (in the function or before every call of it)" if f.static else ""))
+            if w is None:
                 ctx.ok(rule, key, P.where(f.body), what)
             else:
-                ctx.bad(rule, key, P.where(reads[0]), what, "path: %s" % describe_path(f, f.cfg, path),
-                        witness={"blocks": list(path)[-40:]})
+                g, path = w
+                ctx.bad(rule, key, P.where(reads[0]), what,
+                        "unguarded path in %s: %s" % (g.name, describe_path(g, g.cfg, path)), witness={"blocks": list(path)[-40:]})
     return n, inst
